@@ -8,7 +8,7 @@ include!("/verif/.build/playback/update_branch_ops.inc");
 // ---- BranchOpsTracker::push_chunk: bounded native enumeration -------------------------------------
 // (run by `cargo kani playback`; the unbounded statement is the Verus unit v19_branch_ops)
 #[cfg(test)]
-fn native_key(prefix_byte: u8, i: usize) -> Key {
+pub(crate) fn native_key(prefix_byte: u8, i: usize) -> Key {
     let mut k = [0u8; 32];
     for x in k.iter_mut().take(8) {
         *x = prefix_byte;
@@ -19,7 +19,7 @@ fn native_key(prefix_byte: u8, i: usize) -> Key {
 
 /// a base node of `n` separators of which the first `pc` are prefix-compressed
 #[cfg(test)]
-fn native_base(n: usize, pc: usize) -> BaseBranch {
+pub(crate) fn native_base(n: usize, pc: usize) -> BaseBranch {
     use crate::beatree::branch::{BranchNode, BranchNodeBuilder};
     let pool = crate::io::PagePool::new();
     let keys: Vec<Key> = (0..n).map(|i| native_key(if i < pc { 0x11 } else { 0xEE }, i)).collect();
